@@ -23,7 +23,7 @@ ASSUMPTIONS = ['reproduction bounds are 1e-11 x cond x |c|; cases where that exc
 KINDS = ['interp', 'interp', 'interp', 'l2', 'l2', 'l2geo', 'l2geo', 'hspace']
 
 def cases(tier, seed):
-    n = {'quick': 320, 'thorough': 6000}[tier]
+    n = {'quick': 320, 'thorough': 18000}[tier]
     for i in range(n):
         yield {'kind': KINDS[i % len(KINDS)], 'seed': seed, 'idx': i}
 
